@@ -10,7 +10,13 @@ use crate::{engine::catch, obs::errkind};
 
 fn res_path(r: Result<RvResult<std::path::PathBuf>, String>) -> Value {
     match r {
-        Ok(Ok(p)) => json!({"ok": p.to_str().map(|s| s.to_string())}),
+        Ok(Ok(p)) => {
+            use std::os::unix::ffi::OsStrExt;
+            match p.to_str() {
+                Some(s) => json!({"ok": s}),
+                None => json!({"ok": null, "ok_bytes": p.as_os_str().as_bytes().iter().map(|b| format!("{:02x}", b)).collect::<String>()}),
+            }
+        },
         Ok(Err(e)) => json!({"err": errkind(&e)}),
         Err(m) => json!({"panic": m}),
     }
@@ -74,6 +80,22 @@ pub fn main() {
                 match std::env::set_current_dir(cwd) {
                     Ok(_) => res_path(catch(|| Stdfs::abs(&s))),
                     Err(e) => json!({"harness_error": format!("chdir {}: {}", cwd, e)}),
+                }
+            },
+            // "does no IO": with the process cwd deleted from under it, arguments that do not need the cwd
+            // still resolve. LAST request of a child (the cwd stays broken)
+            "abs_std_nocwd" => {
+                let dir = req["dir"].as_str().unwrap_or("/nonexistent");
+                let prep = std::fs::create_dir_all(dir).and_then(|_| std::env::set_current_dir(dir)).and_then(|_| std::fs::remove_dir(dir));
+                match prep {
+                    Ok(_) => {
+                        let list: Vec<Value> = req["paths"].as_array().cloned().unwrap_or_default().iter().map(|p| {
+                            let p = p.as_str().unwrap_or("").to_string();
+                            res_path(catch(|| Stdfs::abs(&p)))
+                        }).collect();
+                        json!({"list": list})
+                    },
+                    Err(e) => json!({"harness_error": format!("prepare deleted cwd {}: {}", dir, e)}),
                 }
             },
             "xdg" => json!({
